@@ -5,12 +5,12 @@
 set -u
 export GOFLAGS=-mod=mod GOPROXY=off GOSUMDB=off GOTOOLCHAIN=local
 pid="$1"; m="$2"; shift 2
-src=/tmp/mut/$pid-out/$m
+src=${SEEDSRC:-/root/mw}/$pid-out/$m
 dst=/verif/seeded/$pid-$m
 wt=$(mktemp -d /tmp/seed.XXXXXX)
 git -C /repo worktree add -q --detach "$wt" HEAD
 demo=$(ls $src/*_test.go | head -1)
-demopath=$(grep -oE '[a-zA-Z0-9_/.-]+_test\.go' $src/notes.md | grep / | head -1)
+demopath=$(grep -oE "demo path: [^ ]+" $src/notes.md | head -1 | sed "s/demo path: //; s/`//g")
 [ -z "$demopath" ] && demopath=$(basename $demo)
 demodir=$(dirname "$demopath")
 log=$(mktemp)
